@@ -340,7 +340,8 @@ where
     }
 
     pub fn edge_count(&self) -> u64 {
-        self.edge_count_from() + self.edge_count_to()
+        self.edge_count_from()
+            .saturating_add(self.edge_count_to())
     }
 
     pub fn edge_count_from(&self) -> u64 {
